@@ -1,3 +1,4 @@
+import math
 from typing import Union
 
 import torch
@@ -54,9 +55,14 @@ class LotkaVolterraOscillating:
             loc=mean, covariance_matrix=covariance
         )
         self._uniform = BoxUniform(low=-5 * torch.ones(4), high=2 * torch.ones(4))
-        self._log_normalizer = -torch.log(
-            torch.erf((2 - mean) / sigma) - torch.erf((-5 - mean) / sigma)
-        ).sum()
+        # The uniform factor only restricts the Gaussian to the box: divide by the Gaussian mass of
+        # the box (per dimension a difference of normal CDFs, Phi(z) = (1 + erf(z / sqrt(2))) / 2)
+        # and give back the volume of the box that the uniform density divides by.
+        box_mass = 0.5 * (
+            torch.erf((2 - mean) / (sigma * math.sqrt(2)))
+            - torch.erf((-5 - mean) / (sigma * math.sqrt(2)))
+        )
+        self._log_normalizer = -torch.log(box_mass).sum() + 4 * math.log(2 - (-5))
 
     def log_prob(self, value):
         unnormalized_log_prob = self._gaussian.log_prob(value) + self._uniform.log_prob(
